@@ -52,6 +52,11 @@
   * `facesAt_meets_crossExact`, `on_parallel_not_crossing`
                              — the exact clause `CrossExact` (decided by the driver on the very doubles the
                                implementation compares): an end node ON the parallel is on neither side.
+  * `crossExact_latitude_domain`
+                             — for any coordinate change that preserves and reflects the strict order (the exact
+                               sine on [-90°, 90°]) `CrossExact` on the node LATITUDES and the queried latitude is
+                               `CrossExact` on their images: the driver also decides the clause on the source's own
+                               node_lat doubles, so a derived node_z that is off by an ulp cannot hide a tie.
   * `box_iff`, `circle_iff`, `knn_spec` — region selectors as predicates on reference points.
 -/
 import UxVerif.Lemmas.Slice
@@ -2162,6 +2167,49 @@ theorem slice_keeps_supplied_edges {B : Base} {g : State} (h : Coh B g) (hen : g
   simp only [Option.bind_eq_bind, Option.bind_some, hEN, Option.pure_def, Option.map_some, hsrc]
   rfl
 
+/-! ## 7j. the latitude domain: the clause may be decided on the source's node latitudes -/
+
+/-- `faceHas` only looks at the edges' value pairs through the predicate -/
+theorem faceHas_map {K : Type} [Add K] [Sub K] [LT K] [DecidableLT K] (p : K × K → Bool) (F : K × K → K × K) (Z : List (K × K)) (FE : Table) (N : List Nat) (f : Nat) :
+    faceHas p (Z.map F) FE N f = faceHas (fun z => p (F z)) Z FE N f := by
+  unfold faceHas
+  congr 1
+  funext e
+  rw [List.getElem?_map]
+  cases Z[e]? <;> rfl
+
+/-- **latitude domain ⇔ z domain.**  Let `f` preserve and reflect the strict order on a set `S` of values (the
+    exact sine of an angle in degrees on [-90°, 90°]).  Then the cross-section clause decided on the node
+    LATITUDES and the queried latitude is the clause decided on their images (`z = f lat`, `z_constant = f c`):
+    a node whose latitude EQUALS the queried one is on neither side, whatever a grid derives for its `z`. -/
+theorem crossExact_latitude_domain {K : Type} [Field K] [LinearOrder K] (f : K → K) (S : K → Prop)
+    (hf : ∀ x y, S x → S y → (x < y ↔ f x < f y))
+    (c : K) (hc : S c) (Z : List (K × K)) (hZ : ∀ z ∈ Z, S z.1 ∧ S z.2)
+    (FE : Table) (N : List Nat) (faces : List Int) :
+    CrossExact (f c) (Z.map (fun z => (f z.1, f z.2))) FE N faces ↔ CrossExact c Z FE N faces := by
+  have key : ∀ g, faceHas (strictlyOpposite (f c)) (Z.map (fun z => (f z.1, f z.2))) FE N g
+      = faceHas (strictlyOpposite c) Z FE N g := by
+    intro g
+    rw [faceHas_map]
+    unfold faceHas
+    refine List.any_congr rfl ?_
+    intro e
+    cases hz : Z[e]? with
+    | none => rfl
+    | some z =>
+      have hm : z ∈ Z := List.mem_of_getElem? hz
+      obtain ⟨s1, s2⟩ := hZ z hm
+      simp only [strictlyOpposite]
+      rw [← Bool.coe_iff_coe]
+      simp only [Bool.or_eq_true, Bool.and_eq_true, decide_eq_true_eq]
+      rw [← hf z.1 c s1 hc, ← hf c z.2 hc s2, ← hf z.2 c s2 hc, ← hf c z.1 hc s1]
+  unfold CrossExact
+  constructor
+  · rintro ⟨h1, h2, h3⟩
+    exact ⟨h1, fun g hg => by rw [← key g]; exact h2 g hg, h3⟩
+  · rintro ⟨h1, h2, h3⟩
+    exact ⟨h1, fun g hg => by rw [key g]; exact h2 g hg, h3⟩
+
 /-! ## 8. /repo before the repair: proved counterexamples, and non-vacuity -/
 
 /-- two triangles sharing the edge (1,2) -/
@@ -2290,5 +2338,10 @@ example := slice_keeps_supplied_edges (coh_supplied_en 3 t2 enSup [[1, 0, 3], [0
 /-- had the lookup failed to match the rows listing the larger node first (the seeded regression), the
     edges would have been rebuilt: another table, another numbering -/
 example : edges t2 ≠ enSup := by decide
+
+/-- latitude domain: nodes at 10° are ON the parallel 10° — the two faces that only touch it are not
+    selected, the one crossing it is (same instance as the z-domain example above, in degrees) -/
+example : CrossExact (10 : Int) [(10, 10), (10, 20), (10, 20), (10, 20), (20, 20), (5, 15), (15, 15), (15, 5)]
+    [[0, 1, 2], [3, 4, 2], [5, 6, 7]] [3, 3, 3] [2] := by decide
 
 end UxVerif.C09
